@@ -12,7 +12,8 @@
      mv               Refine.mv = move_prealloc with the bounds check (the repaired MovePreallocated) *)
 From Coq Require Import NArith ZArith List Bool SetoidList.
 Require Import Board Rules Move GameOver Refine RefinePlace2.
-Require Import AllMovesFacts AllMovesFacts2 AllMovesFacts3 AllMovesFacts4 AllMovesFacts5 AllMovesFacts6.
+Require Import AllMovesFacts AllMovesFacts2 AllMovesFacts3 AllMovesFacts4 AllMovesFacts5 AllMovesFacts6 AllMovesFacts8.
+Require Preserve1 Reach1 Alloc.
 Require Symmetry.
 Import ListNotations.
 
@@ -104,6 +105,32 @@ Corollary C03_legal_set_iff : forall p m, invariant p ->
   (is_some (rules_move (abs p) (raw m)) = true <-> exists g, In g (legal_list p) /\ move_equal g m = true).
 Proof. exact legal_set_iff. Qed.
 Print Assumptions C03_legal_set_iff.
+
+(* The same under the EXACT invariant of C01 (Preserve1.pos_ok: every stack within the 64 pieces a stack word can hold) instead of
+   `invariant` (height + size <= 64): legality never depends on the 64 limit (C01_move_exact), so on every position the
+   representation can hold the filtered list is exactly the legal move set. *)
+Theorem C03_legal_set_exact_pos_ok : forall p, Preserve1.pos_ok p ->
+  NoDupA meq (legal_list p) /\
+  (forall g, In g (legal_list p) -> In g (all_moves p) /\ is_some (rules_move (abs p) (raw g)) = true) /\
+  (forall m, count m (legal_list p) = if is_some (rules_move (abs p) (raw m)) then 1%nat else 0%nat).
+Proof. exact legal_set_exact_pos_ok. Qed.
+Print Assumptions C03_legal_set_exact_pos_ok.
+
+Corollary C03_legal_set_iff_pos_ok : forall p m, Preserve1.pos_ok p ->
+  (is_some (rules_move (abs p) (raw m)) = true <-> exists g, In g (legal_list p) /\ move_equal g m = true).
+Proof. exact legal_set_iff_pos_ok. Qed.
+Print Assumptions C03_legal_set_iff_pos_ok.
+
+(* ... hence for every position of a real game (any size, any piece set of at most 64 pieces, any sequence of accepted moves from
+   tak.New): the position is the one the rules reach, and the filtered list lists every rules-legal move exactly once. *)
+Corollary C03_legal_set_exact_game : forall sz bwt stones caps ms p,
+  (3 <= sz <= 8)%N -> (2 * (stones + caps) <= 64)%N -> Reach1.no_pass ms ->
+  Reach1.replay (Alloc.new_pos sz bwt stones caps) ms = Ok p ->
+  Rules.play (Reach1.rules_start (N.to_nat sz) stones caps bwt) (map raw ms) = Some (abs p) /\
+  NoDupA meq (legal_list p) /\
+  (forall m, count m (legal_list p) = if is_some (rules_move (abs p) (raw m)) then 1%nat else 0%nat).
+Proof. exact legal_set_exact_game. Qed.
+Print Assumptions C03_legal_set_exact_game.
 
 (* Non-vacuity (AllMovesFacts5.v): ex_pos is a 5x5 position after 14 plies (a white stack of three, a black
    wall and a black capstone in the way); it satisfies `invariant` and `wf`, the model accepts moves in it,
